@@ -441,6 +441,7 @@ def run(ctx):
         raise vlib.ToolError("generator is vacuous for: %s" % missing)
 
     # impl -> spec
+    vacuous = []
     rec_trace = ctx.path("rec_trace.ndjson")
     rec = vlib.run_harness(binp, ["record", ctx.seed, ctx.tier, rec_trace], timeout=2400)
     tally = rec.get("tally", {})
@@ -450,7 +451,9 @@ def run(ctx):
               "glyphs_old_id_past_numberOfHMetrics", "ok:glyf:prince", "ok:cff:prince", "fonts:syn-cff2", "fonts:syn-cid") \
             + RECORDED_COMPOSITE_FAMILIES + RECORDED_BOUNDARY_KEYS:
         if tally.get(k, 0) == 0:
-            raise vlib.ToolError("recording is vacuous for %s" % k)
+            # decided at the end: on a broken tree (subset calls that panic or fail) a family may be missing BECAUSE of
+            # the defect, which is then reported as a violation; without such a violation it is a tool error
+            vacuous.append("recording:" + k)
 
     planted, fams = _plant_trace(rec_trace)
     trace = ctx.path("trace.ndjson")
@@ -489,7 +492,7 @@ def run(ctx):
               "comp_scale", "comp_xy_scale", "comp_two_by_two", "comp_two_by_two_asymmetric", "comp_negative_transform",
               "comp_point_args", "composite_with_instructions", "transformed_outlines_compared"):
         if stats.get(k, 0) == 0:
-            raise vlib.ToolError("judge statistics are vacuous for %s" % k)
+            vacuous.append("judge:" + k)
 
     # violations
     violations, per_key = [], {}
@@ -525,6 +528,13 @@ def run(ctx):
     for k, n in sorted(per_key.items()):
         ctx.note("mismatch class %s: %d" % (k, n))
 
+    if vacuous:
+        known = vlib.load_known(ctx.prop)
+        fresh = [v.key for v in violations if v.key not in known]
+        if not fresh:
+            raise vlib.ToolError("vacuous for %s" % ", ".join(vacuous[:8]))
+        ctx.note("families not exercised on this tree, with new violations reported (%s): %s" % (", ".join(fresh[:4]), ", ".join(vacuous)))
+
     coverage = {
         "states": states,
         "transitions": total,
@@ -537,6 +547,7 @@ def run(ctx):
         "events_judged": total,
         "judge_statistics": stats,
         "mismatch_classes": per_key,
+        "families_not_exercised_on_this_tree": vacuous,
         "tlc_states_generated": generated,
         "binding_selfcheck": {"replay": "%d of %d families valid (untouched case accepted), %d corrupted prescriptions each, all reported" % replay_self,
                               "judge": self_verdict, "planted_events": len(planted)},
